@@ -845,6 +845,28 @@ def run_file_contexts(rec, ep, s, rnd):
                               f'{snap[:160]} -> {repr(rows_live)[:160]}', {'kind': 's', 'where': 'rules file ' + slot, 's': s})
         finally:
             shutil.rmtree(tmpd, ignore_errors=True)
+    if slot not in ('field', 'let', 'variable', 'tag'):
+        # a transform whose expression has no value for this transaction (rejected text, unknown field, wrong types) changes NOTHING of it
+        from tally.merchant_utils import apply_transforms as _at
+        for target in ('field.description', 'field.memo', 'field.newcol'):
+            t0 = copy.deepcopy(txn)
+            try:
+                ep.evaluate_transaction(s, copy.deepcopy(t0))
+                continue                      # it has a value: the transform applies (and may record the original)
+            except ep.ExpressionError:
+                pass
+            except Exception:
+                continue
+            t1 = copy.deepcopy(t0)
+            try:
+                _at(t1, [(target, s)])
+            except Exception:
+                continue
+            rec.count('failing_transform_leaves_transaction_untouched_checks')
+            if not same_data(t0, t1) or set(t0) != set(t1):
+                rec.violation('failing-transform-changes-transaction', f'transform `{target} = {s}` cannot be evaluated for the transaction, yet apply_transforms changed it: '
+                              f'new/changed keys {sorted(k for k in t1 if k not in t0 or repr(t1[k]) != repr(t0.get(k)))}', {'kind': 's', 'where': 'rules file transform', 's': s})
+                break
     if 't' in seen:
         rec.count('matched_transaction_immutability_checks')
         if not same_data(seen['before'], seen['t']):
@@ -928,6 +950,13 @@ def run(rec, shard, nshards, t):
     strings = []
     for i, s in enumerate(PAYLOADS):
         strings.append(('payload', s))
+    # every attribute / method name of the evaluator and context classes as a BARE identifier (and in capitals): a name is a primitive, a variable,
+    # a data source or unknown - never a piece of the machinery
+    for cls in (ep.TransactionContext, ep.TransactionEvaluator, ep.ExpressionContext, ep.ExpressionEvaluator):
+        for nm in sorted(set(dir(cls)) | set(getattr(cls, '__slots__', ()))):
+            if nm.isidentifier():
+                strings.append(('payload', nm))
+                strings.append(('payload', '"%s" % ' + nm.upper() if nm.islower() else nm.lower()))
     for k, s in node_class_strings():
         strings.append(('node', s))
     matrix = attr_matrix(core.rng_for('C03', 'matrix'))
